@@ -14,7 +14,7 @@ RULE = ("random diploid call sets (1-10 samples, 0-60 records) x sample maps x o
         "no EOF block; an empty first block; a first block of 1 and of 2 bytes), BGZF BCF and raw BCF (noodles writer), supplied by path, on stdin in one write and on stdin as a pipe whose first write carries only 1, 2, 3, 20 or 300 bytes, with --threads in {1,2,3,4,8,16} (also with the process confined to one and to two CPUs) "
         "(quick: 3 of them per form), each configuration repeated (fresh process = fresh hash seeds): stdout must be "
         "byte-identical across ALL forms and equal exit status, and equal to the proved model's output on the abstract call "
-        "set. non-trivial = call set with >= 2 populations or a projection; the same bytes by path under names suggesting the other container or none (*.vcf for BCF, *.bcf for VCF, *.npy, *.gz, no extension)")
+        "set. non-trivial = call set with >= 2 populations or a projection; the same bytes by path under names suggesting the other container or none (*.vcf for BCF, *.bcf for VCF, *.npy, *.gz, no extension); call sets with no record and with one record")
 
 
 def check(rep, tier, seed):
@@ -24,6 +24,10 @@ def check(rep, tier, seed):
     nsets = 6 if tier == "quick" else 40
     for k in range(nsets):
         cols, recs = random_callset(rng, nsamples=rng.randrange(1, 11), nrecords=rng.randrange(0, 61), p_skip=rng.choice([0.0, 0.15]))
+        if k == 1:
+            recs = []                    # a call set without any record (header only): an all-zero spectrum from every container
+        elif k == 2:
+            recs = recs[:1]              # ... and with a single one
         recs_nd = [[g if g != "." else "./." for g in r] for r in recs]       # noodles' BCF writer cannot encode a bare '.'
         sm = None if k % 4 == 0 else random_map(rng, cols)
         pr = None if k % 3 else random_projection(rng, pop_sizes(sm) if sm else [len(cols)])
